@@ -285,6 +285,12 @@ def replay(payload):
         except ValueError:
             got = False
         return got == c14.rule(spdx_T), 'build accepted=%r, unambiguous=%r' % (got, c14.rule(spdx_T))
+    if payload.get('kind') == 'index':
+        sidx = payload['index']
+        want_sc = [e.get('license_key', '') for e in sidx if not e.get('is_deprecated', False)]
+        g1 = outcome_of(lambda: table_of(le.build_licensing(sidx)))
+        ok = g1[0] != 0 or [x[0] for x in g1[1]] == [enc_str(k) for k in dict.fromkeys(want_sc)]
+        return ok, 'build_licensing knows %r, the index lists %r' % (g1[1] if g1[0] == 0 else g1, want_sc)
     if payload.get('kind') == 'index-names':
         err = check_synth_names(payload['index'], le)
         return err is None, err or 'every name of the synthetic index is recognised'
